@@ -29,17 +29,58 @@ def tree_hash(repo):
     return h.hexdigest()[:16]
 
 
+def py_hash(repo):
+    """hash of every pure-Python file of the package: the cache directory holds a *copy* of the package, so a change of
+    a .py file must select another directory (an earlier version keyed the cache by the native sources only and kept
+    serving a stale copy of the Python files: seeded change C09-c, in default_records.py, was invisible)"""
+    h = hashlib.sha256()
+    root = os.path.join(repo, "aiokafka")
+    for dp, dn, fns in sorted(os.walk(root)):
+        dn.sort()
+        for f in sorted(fns):
+            if f.endswith(".py"):
+                path = os.path.join(dp, f)
+                h.update(os.path.relpath(path, root).encode())
+                h.update(open(path, "rb").read())
+    return h.hexdigest()[:12]
+
+
 def ensure(repo="/repo", quiet=True):
-    key = tree_hash(repo)
+    nkey = tree_hash(repo)
+    key = nkey + "-" + py_hash(repo)
     out = os.path.join(CACHE, key)
     marker = os.path.join(out, ".built")
     if os.path.exists(marker):
         return out
     if os.path.exists(out):
+        shutil.rmtree(out, ignore_errors=True)
+    tmp_out = out + ".tmp%d" % os.getpid()
+    final_out, out = out, tmp_out
+    if os.path.exists(out):
         shutil.rmtree(out)
     os.makedirs(out)
     shutil.copytree(os.path.join(repo, "aiokafka"), os.path.join(out, "aiokafka"),
                     ignore=shutil.ignore_patterns("*.so", "__pycache__", "*.c.bak"))
+    # same native sources already built for another state of the Python files: reuse the compiled modules
+    sibling = None
+    if os.path.isdir(CACHE):
+        for d in sorted(os.listdir(CACHE)):
+            if d.startswith(nkey + "-") and os.path.exists(os.path.join(CACHE, d, ".built")):
+                sibling = os.path.join(CACHE, d)
+                break
+    if sibling is not None:
+        sdir = os.path.join(sibling, "aiokafka", "record", "_crecords")
+        ddir = os.path.join(out, "aiokafka", "record", "_crecords")
+        sos = [f for f in os.listdir(sdir) if f.endswith(".so")]
+        if sos:
+            for f in sos:
+                shutil.copy(os.path.join(sdir, f), ddir)
+            open(os.path.join(out, ".built"), "w").write(repo + " (compiled modules reused from %s)\n" % os.path.basename(sibling))
+            try:
+                os.rename(out, final_out)
+            except OSError:
+                shutil.rmtree(out, ignore_errors=True)      # another process got there first
+            return final_out
     # generated C files of an older build must not be reused
     cdir = os.path.join(out, "aiokafka", "record", "_crecords")
     for f in os.listdir(cdir):
@@ -55,12 +96,16 @@ def ensure(repo="/repo", quiet=True):
     if r.returncode != 0:
         sys.stderr.write(r.stdout[-3000:])
         raise SystemExit("building the extensions of %s failed" % repo)
-    open(marker, "w").write(repo + "\n")
-    # keep the cache small: the three most recent builds
-    builds = sorted((os.path.getmtime(os.path.join(CACHE, d)), d) for d in os.listdir(CACHE))
-    for _, d in builds[:-3]:
+    open(os.path.join(out, ".built"), "w").write(repo + "\n")
+    try:
+        os.rename(out, final_out)
+    except OSError:
+        shutil.rmtree(out, ignore_errors=True)              # another process got there first
+    # keep the cache small: the six most recent entries
+    builds = sorted((os.path.getmtime(os.path.join(CACHE, d)), d) for d in os.listdir(CACHE) if ".tmp" not in d)
+    for _, d in builds[:-6]:
         shutil.rmtree(os.path.join(CACHE, d), ignore_errors=True)
-    return out
+    return final_out
 
 
 if __name__ == "__main__":
